@@ -154,14 +154,16 @@ def call_requests(rng, sigs, n):
     for name, shapes, params in sigs:
         if shapes.startswith("!"):
             continue        # record / opaque parameters: no direct counterpart to call
-        modname, fn = name.split(".")
+        modname, fn = name.split(".", 1)        # fn may be `Class.method` (static / class methods)
         if modname not in mods:
             try:
                 mods[modname] = importlib.import_module("ethosu.vela." + modname)
             except Exception as e:  # noqa: BLE001
                 print(f"cannot import {modname}: {e}")
                 continue
-        f = getattr(mods[modname], fn)
+        f = mods[modname]
+        for part in fn.split("."):
+            f = getattr(f, part)
         shp = shapes.split(",") if shapes else []
         typed = modname == "fp_math"
         for _ in range(n):
@@ -211,7 +213,8 @@ def call_requests(rng, sigs, n):
                 big = [a for a in args[1:] if isinstance(a, int) and abs(a) > 2 ** 20]
                 if big and fn != "make_da_tag":
                     continue
-            lists = [a for a in args if isinstance(a, list)] if "O3:" not in shapes else []
+            # (only the `driver_actions` emitters mutate their list parameter; `full_shape`, `shape_num_elements` do not)
+            lists = [a for a in args if isinstance(a, list)] if "O3:" not in shapes and modname == "driver_actions" else []
 
             def run():
                 r = f(*args)
